@@ -282,6 +282,11 @@ func (x *Exec) builtin(st *State, fr *frame, b *ssa.Builtin, cc *ssa.CallCommon,
 			op = ">="
 		}
 		k(st, scInt(fmt.Sprintf("(ite (%s %s %s) %s %s)", op, a, b2, a, b2)))
+	case "ssa:wrapnilchk":
+		if p, ok := args[0].(Ptr); ok {
+			x.assumeOrPanic(st, fr, not(p.Nil), "nilderef")
+		}
+		k(st, args[0])
 	case "print", "println":
 		k(st, nil)
 	default:
@@ -381,13 +386,25 @@ func (x *Exec) applyContract(st *State, fr *frame, con *Contract, name string, s
 			}
 		}
 	}
-	// ghost parameters of the callee are instantiated by same-named ghosts of the caller
+	// ghost parameters of the callee are instantiated by same-named ghosts of the caller; the others
+	// stay universally quantified: the callee's contract holds for every value of them, which the
+	// caller may use as the hypothesis  forall g. requires(g) => ensures(g)
+	var unprov []GhostParam
 	for _, g := range con.Ghosts {
 		if v, ok := x.args[g.Name]; ok {
 			env.vars[g.Name] = v
 		} else {
-			subsetf("callee %s has ghost parameter %s that the caller does not provide", name, g.Name)
+			unprov = append(unprov, g)
+			env.bound[g.Name] = true
 		}
+	}
+	mentions := func(term string) bool {
+		for _, g := range unprov {
+			if containsToken(term, g.Name) {
+				return true
+			}
+		}
+		return false
 	}
 	// captured values of the callee are some (unknown) byte slices for the caller
 	for _, cp := range con.Captures {
@@ -406,11 +423,16 @@ func (x *Exec) applyContract(st *State, fr *frame, con *Contract, name string, s
 	pre := st
 	env.cur, env.old = st, st
 	x.nPre[name]++
+	var ghostReqs []string
 	for _, r := range con.Requires {
 		// instances of the ORM representation invariant inside a precondition are assumed facts
 		env.wfTrue = true
 		goal := env.term(r.Sx)
 		env.wfTrue = false
+		if len(unprov) > 0 && mentions(goal) {
+			ghostReqs = append(ghostReqs, env.term(r.Sx))
+			continue
+		}
 		if goal != "true" {
 			x.oblig(&Obligation{Name: fmt.Sprintf("pre@%s#%d.%s", shortName(name), x.nPre[name], r.Label), Kind: "pre", Label: r.Label,
 				Hyps: append([]string(nil), st.pc...), Goal: goal, Trace: strings.Join(st.trace, " "), Src: r.Src})
@@ -466,8 +488,25 @@ func (x *Exec) applyContract(st *State, fr *frame, con *Contract, name string, s
 		}
 	}
 	env.cur, env.old = st, pre
+	var plain, quant []string
 	for _, e := range con.Ensures {
-		st.assume(env.term(e.Sx))
+		t := env.term(e.Sx)
+		if len(unprov) > 0 && mentions(t) {
+			quant = append(quant, t)
+		} else {
+			plain = append(plain, t)
+		}
+	}
+	for _, t := range plain {
+		st.assume(t)
+	}
+	if len(quant) > 0 {
+		var bs []string
+		for _, g := range unprov {
+			bs = append(bs, fmt.Sprintf("(%s %s)", g.Name, g.Sort))
+		}
+		// the requires are evaluated in the pre-call state
+		st.assume(fmt.Sprintf("(forall (%s) %s)", strings.Join(bs, " "), implies(and(ghostReqs...), and(quant...))))
 	}
 	k(st, resV)
 }
@@ -711,4 +750,18 @@ func (x *Exec) sprintf(st *State, site ssa.Instruction, args []Val) (Val, bool) 
 		t = "(strcat " + parts[i] + " " + t + ")"
 	}
 	return scInt(t), true
+}
+
+func containsToken(term, name string) bool {
+	for i := 0; i+len(name) <= len(term); i++ {
+		if term[i:i+len(name)] != name {
+			continue
+		}
+		before := i == 0 || strings.ContainsRune(" ()", rune(term[i-1]))
+		after := i+len(name) == len(term) || strings.ContainsRune(" ()", rune(term[i+len(name)]))
+		if before && after {
+			return true
+		}
+	}
+	return false
 }
